@@ -21,7 +21,7 @@ func main() { wk.Main("C12", run) }
 var profiles = []string{"residue", "mixed", "tiny", "big", "trap", "micro", "residue", "mixed"}
 
 func run(c *wk.Ctx) {
-	n := c.Pick(1536, 3072)
+	n := c.Pick(3072, 6144)
 	for i := 0; i < n; i++ {
 		if !c.Mine(i) {
 			continue
